@@ -208,3 +208,16 @@ Example C02_ex_add_dial_refuted :
   route (rgstep st (RgDial 2 0)) 0 = Some (Live 2).
 Proof. exact add_dial_refuted. Qed.
 Print Assumptions C02_ex_add_dial_refuted.
+
+(** (b) A spec-driven Initial packet that carries frames (a retransmission, a PING probe) shares
+    its datagram with nothing, whether or not Handshake data is ready (PackCoalescedPacket after
+    fixes/C02-spec-initial-travels-alone.patch); before, the Handshake packet was put behind it. *)
+Theorem C02_spec_initial_travels_alone : forall frames ping hs,
+  frames <> [] \/ ping = true -> coalesced_count frames ping hs = 1.
+Proof. exact spec_initial_travels_alone. Qed.
+Print Assumptions C02_spec_initial_travels_alone.
+
+Example C02_ex_legacy_coalesced :
+  legacy_coalesced_count [(0, 300)] false true = 2 /\ coalesced_count [(0, 300)] false true = 1.
+Proof. exact legacy_coalesced. Qed.
+Print Assumptions C02_ex_legacy_coalesced.
